@@ -33,12 +33,14 @@ def _clauses(xs, default_props):
 
 
 class Loop:
-    def __init__(self, inv=(), variant=None, props=(), havoc=(), keep=()):
+    def __init__(self, inv=(), variant=None, props=(), havoc=(), keep=(), frame=None, ghost_set=None):
         self.inv = inv
         self.variant = variant
         self.props = props
         self.havoc = list(havoc)
         self.keep = list(keep)
+        self.frame = dict(frame or {})
+        self.ghost_set = dict(ghost_set or {})
 
 
 class FuncContract:
@@ -47,7 +49,7 @@ class FuncContract:
                  loops=None, at_yield=(), modifies=(), generator=False,
                  ghosts=None, cls=None, assumed=False, note="",
                  on_abandon=(), locals_=None, reads_async=False,
-                 verify=True, pure=False, at_call=None):
+                 verify=True, pure=False, at_call=None, sig=None):
         self.module = module
         self.qualname = qualname
         self.props = list(props)
@@ -62,7 +64,11 @@ class FuncContract:
                 v = Loop(**v)
             elif not isinstance(v, Loop):
                 v = Loop(inv=v)
-            v.inv = _clauses(v.inv, v.props or props)
+            inv = list(v.inv)
+            for fkey, refs in v.frame.items():
+                inv.append("frame_loop(%r%s)" % (fkey, "".join(
+                    ", loop_entry(%s)" % r for r in refs)))
+            v.inv = _clauses(inv, v.props or props)
             self.loops[k] = v
         self.at_yield = _clauses(at_yield, props)
         self.on_abandon = _clauses(on_abandon, props)
@@ -76,6 +82,7 @@ class FuncContract:
         self.locals = dict(locals_ or {})
         self.verify = verify
         self.pure = pure
+        self.sig_names = sig
         self.at_call = {k: _clauses(v, props) for k, v in (at_call or {}).items()}
 
     @property
